@@ -5,8 +5,8 @@
 EXTENDS Levels, Req, Json, TLC
 
 Trace == ndJsonDeserialize("obs.ndjson")
-VARIABLES l
-vars == <<l>>
+VARIABLES l, done
+vars == <<l, done>>
 
 Fail(p, why, key) == [p |-> p, why |-> why, key |-> key]
 
@@ -43,11 +43,14 @@ Verdicts(o) ==
              ELSE IF o.series = Expected(o) THEN {} ELSE {Fail("C14", "series", "")})
        \cup (IF o.case.exact \/ Len(o.series) = Len(Expected(o)) THEN {} ELSE {Fail("C14", "count", "")})
 
-Init == l = 1
-Next == /\ l <= Len(Trace)
+(* independent lines are validated as independent states (see Trace_Decide) *)
+Init == l = 0 /\ done = FALSE
+Spread == l = 0 /\ l' \in 1..Len(Trace) /\ UNCHANGED done
+Eval == /\ l > 0 /\ ~done
         /\ LET V == Verdicts(Trace[l]) IN
              IF V = {} THEN TRUE ELSE PrintT(ToJson([VERDICT |-> l, case |-> Trace[l].case.id, v |-> V]))
-        /\ l' = l + 1
+        /\ done' = TRUE /\ UNCHANGED l
+Next == Spread \/ Eval
 Spec == Init /\ [][Next]_vars
-AllConsumed == TLCGet("stats").diameter = Len(Trace) + 1
+AllConsumed == TLCGet("distinct") = 2 * Len(Trace) + 1
 =============================================================================
